@@ -760,6 +760,251 @@ fn seg_uniq(run: &mut Runner, r: &mut R) {
     }
 }
 
+/// rewrites every reference to column `name` (qualified) as (col + 0): semantically identical, but no index applies
+fn defeat_index(e: &E, suffix: &str) -> E {
+    let d = |x: &E| Box::new(defeat_index(x, suffix));
+    match e {
+        E::Col(n, i) if n.ends_with(suffix) => E::Bin("add", Box::new(E::Col(n.clone(), *i)), Box::new(E::Lit(V::Int(0)))),
+        E::Col(..) | E::Lit(_) => e.clone(),
+        E::Not(x) => E::Not(d(x)),
+        E::Neg(x) => E::Neg(d(x)),
+        E::Bin(op, l, r) => E::Bin(op, d(l), d(r)),
+        E::IsNull(x, n) => E::IsNull(d(x), *n),
+        E::Between(x, lo, hi, n) => E::Between(d(x), d(lo), d(hi), *n),
+        E::In(x, list, n) => E::In(d(x), list.iter().map(|y| defeat_index(y, suffix)).collect(), *n),
+        E::Like(x, p2, n) => E::Like(d(x), d(p2), *n),
+    }
+}
+
+fn remap_cols(e: &E, f: &dyn Fn(usize) -> usize) -> E {
+    let d = |x: &E| Box::new(remap_cols(x, f));
+    match e {
+        E::Col(n, i) => E::Col(n.clone(), f(*i)),
+        E::Lit(_) => e.clone(),
+        E::Not(x) => E::Not(d(x)),
+        E::Neg(x) => E::Neg(d(x)),
+        E::Bin(op, l, r) => E::Bin(op, d(l), d(r)),
+        E::IsNull(x, n) => E::IsNull(d(x), *n),
+        E::Between(x, lo, hi, n) => E::Between(d(x), d(lo), d(hi), *n),
+        E::In(x, list, n) => E::In(d(x), list.iter().map(|y| remap_cols(y, f)).collect(), *n),
+        E::Like(x, p2, n) => E::Like(d(x), d(p2), *n),
+    }
+}
+
+fn map_select(s: &Select, g: &dyn Fn(&E) -> E) -> Select {
+    let mut o = s.clone();
+    o.wher = g(&s.wher);
+    for f in o.from.iter_mut() { f.on = g(&f.on); }
+    o.group = s.group.iter().map(|e| g(e)).collect();
+    o.proj = s.proj.iter().map(|p| match p { Proj::E(e) => Proj::E(g(e)), Proj::Grp(i) => Proj::Grp(*i), Proj::Agg(f, e) => Proj::Agg(f, g(e)) }).collect();
+    o
+}
+
+/// swaps the first two FROM items of an inner/cross join (column order of the joined row changes, names do not)
+fn permute_join(s: &Select) -> Option<Select> {
+    if s.from.len() != 2 || !(s.from[1].jk == "inner" || s.from[1].jk == "cross") { return None; }
+    let n1 = s.from[0].ncols;
+    let n2 = s.from[1].ncols;
+    let f = move |i: usize| if i <= n1 { i + n2 } else { i - n1 };
+    let mut o = map_select(s, &|e| remap_cols(e, &f));
+    let a = o.from[0].clone();
+    let b = o.from[1].clone();
+    o.from[0] = FromItem { jk: "first", on: lit_true(), ..b.clone() };
+    o.from[1] = FromItem { jk: b.jk, on: b.on.clone(), ..a };
+    Some(o)
+}
+
+/// C06: the same query under different plans - index vs scan, join order, before/after ANALYZE - on a history-built database
+fn seg_plan(run: &mut Runner, r: &mut R, stats: &mut serde_json::Value) {
+    run.reset(default_cfg());
+    let early = r.random_bool(0.5);
+    let mut tabs: Vec<Tab> = vec![rand_table(r, "t1", early), rand_table(r, "t2", false)];
+    tabs[0].updatable = false;
+    for t in tabs.iter_mut() { run.auto(&Stmt::Create(t.def.clone())); }
+    let mut indexed = early;
+    let idx_stmt = Stmt::Index { name: "t1_id".into(), tbl: "t1".into(), cols: vec![(1, "id".into())] };
+    let n = r.random_range(25..55);
+    for step in 0..n {
+        if run.hung { return; }
+        let c = r.random_range(0..100);
+        if c < 30 {
+            let ti = r.random_range(0..2);
+            let s = rand_insert(r, &mut tabs[ti], 0, 1, false);
+            if run.auto(&s).is_ok() { note_insert(&mut tabs[ti], &s); }
+        } else if c < 40 {
+            let ti = r.random_range(0..2);
+            let s = rand_delete(r, &tabs[ti], 0, 1);
+            run.auto(&s);
+        } else if c < 52 {
+            // a session that inserts one row and rolls back (dead index entries)
+            if run.begin(1).is_ok() {
+                let s = rand_insert(r, &mut tabs[0], 0, 1, false);
+                let single = if let Stmt::Insert { tbl, cols, rows } = &s { Stmt::Insert { tbl: tbl.clone(), cols: cols.clone(), rows: vec![rows[0].clone()] } } else { s.clone() };
+                run.stmt(1, &single);
+                if r.random_bool(0.6) { run.rollback(1); } else if run.commit(1).is_ok() { note_insert(&mut tabs[0], &single); }
+            }
+        } else if c < 56 && !indexed && step > 5 {
+            if run.auto(&idx_stmt).is_ok() { indexed = true; tabs[0].def.uniq = vec![vec![1]]; }
+        } else if c < 60 { run.vacuum(); }
+        // no ANALYZE here: the statistics blob makes the catalog row a large cell and later inserts corrupt the catalog
+        // (finding AnalyzeThenInsertCorruptsCatalog); covered by its witness only
+        else {
+            // the query and its plan variants
+            let mut q = if r.random_bool(0.5) {
+                // index-friendly predicate on t1.id
+                let t = &tabs[0];
+                let sc = Scope(vec![(t, "t1".into(), 0)]);
+                let idc = col(t, "t1", 0, 0);
+                let k = if t.ids.is_empty() { 1 } else { *pick(r, &t.ids) };
+                let pred = match r.random_range(0..5) {
+                    0 => E::Bin("eq", Box::new(idc), Box::new(E::Lit(V::Int(k)))),
+                    1 => E::Between(Box::new(idc), Box::new(E::Lit(V::Int(k - 2))), Box::new(E::Lit(V::Int(k + 3))), false),
+                    2 => E::Bin("gt", Box::new(idc), Box::new(E::Lit(V::Int(k)))),
+                    3 => E::Bin("and", Box::new(E::Bin("le", Box::new(idc), Box::new(E::Lit(V::Int(k))))), Box::new(bool_expr(r, &sc, 1))),
+                    _ => E::Bin("eq", Box::new(E::Lit(V::Int(k))), Box::new(idc)),
+                };
+                let mut s = select_all(t);
+                s.wher = pred; s.has_where = true;
+                if r.random_bool(0.3) { s.order = vec![(1, r.random_bool(0.5))]; }
+                if r.random_bool(0.2) { s.limit = r.random_range(1..4); s.order = vec![(1, true)]; }
+                s
+            } else { rand_select(r, &tabs, true) };
+            q.full_parens = false;
+            let mut plans: Vec<String> = vec![];
+            let mut variants = vec![q.clone()];
+            variants.push(map_select(&q, &|e| defeat_index(e, ".id")));
+            if let Some(p) = permute_join(&q) { variants.push(p); }
+            for v in &variants {
+                if let crate::eng::Out::Rows(rows) = run.eng.explain(&v.sql()) { plans.push(rows[0][0]["v"].as_str().unwrap_or("").to_string()); }
+                run.auto(&Stmt::Select(v.clone()));
+            }
+            let shape = |p: &String| -> String { p.split('\n').map(|l| l.trim_start_matches(|c: char| !c.is_alphabetic()).split('(').next().unwrap_or("").to_string()).collect::<Vec<_>>().join(">") };
+            let mut shapes: Vec<String> = plans.iter().map(shape).collect();
+            shapes.sort(); shapes.dedup();
+            stats["plan_pairs"] = json!(stats["plan_pairs"].as_u64().unwrap_or(0) + (shapes.len().saturating_sub(1)) as u64);
+            if plans.iter().any(|p| p.contains("IndexScan")) { stats["index_scans"] = json!(stats["index_scans"].as_u64().unwrap_or(0) + 1); }
+        }
+    }
+    for t in &tabs { run.auto(&Stmt::Select(select_all(t))); }
+}
+
+fn db_size(run: &Runner) -> u64 {
+    std::fs::metadata(&run.dbfile).map(|m| m.len()).unwrap_or(0)
+}
+
+/// C13: VACUUM at any point, any number of times, with or without reopen; reads before and after must agree
+fn seg_vac(run: &mut Runner, r: &mut R, stats: &mut serde_json::Value) {
+    run.reset(default_cfg());
+    let u1 = r.random_bool(0.5);
+    let mut tabs: Vec<Tab> = vec![rand_table(r, "t1", u1), rand_table(r, "t2", false)];
+    for t in tabs.iter_mut() { run.auto(&Stmt::Create(t.def.clone())); let n = r.random_range(2..9); populate(run, r, t, n); }
+    let n = r.random_range(20..45);
+    for _ in 0..n {
+        if run.hung { return; }
+        let ti = r.random_range(0..2);
+        match r.random_range(0..14) {
+            0 | 1 => { let s = rand_insert(r, &mut tabs[ti], 0, 1, false); if run.auto(&s).is_ok() { note_insert(&mut tabs[ti], &s); } }
+            2 => { let s = rand_delete(r, &tabs[ti], 0, 1); run.auto(&s); }
+            3 | 4 if tabs[ti].updatable => { let s = rand_update(r, &tabs[ti], 0, 1); run.auto(&s); }
+            5 | 6 => {
+                // a transaction that rolls back (or commits): inserts into / deletes from the table without updates
+                let tj = if tabs[ti].updatable { 1 - ti } else { ti };
+                if !tabs[tj].updatable && run.begin(1).is_ok() {
+                    let k = r.random_range(1..4);
+                    let mut ins = vec![];
+                    for _ in 0..k {
+                        let st = if r.random_bool(0.6) { let s = rand_insert(r, &mut tabs[tj], 0, 1, false); ins.push(s.clone()); s } else { rand_delete(r, &tabs[tj], 0, 1) };
+                        run.stmt(1, &st);
+                    }
+                    if r.random_bool(0.65) { run.rollback(1); } else if run.commit(1).is_ok() { for s in ins { note_insert(&mut tabs[tj], &s); } }
+                }
+            }
+            7 | 8 | 9 => {
+                for t in &tabs { run.auto(&Stmt::Select(select_all(t))); }
+                run.vacuum();
+                stats["vacuums"] = json!(stats["vacuums"].as_u64().unwrap_or(0) + 1);
+                for t in &tabs { run.auto(&Stmt::Select(select_all(t))); }
+            }
+            10 => { run.reopen(default_cfg()); stats["reopens"] = json!(stats["reopens"].as_u64().unwrap_or(0) + 1); }
+            _ => { let q = rand_select(r, &tabs, true); run.auto(&Stmt::Select(q)); }
+        }
+    }
+    // storage stays bounded over update / vacuum cycles
+    if tabs[1].updatable && !tabs[1].ids.is_empty() {
+        let mut sizes = vec![];
+        for _ in 0..5 {
+            for _ in 0..6 { let s = rand_update(r, &tabs[1], 0, 1); run.auto(&s); }
+            run.vacuum();
+            sizes.push(db_size(run));
+        }
+        run.t.ev(json!({"ev": "sizes", "bytes": sizes.iter().map(|b| b / 1024).collect::<Vec<_>>()}));
+    }
+    for t in &tabs { run.auto(&Stmt::Select(select_all(t))); }
+}
+
+fn rand_cfg(r: &mut R, small_pages_ok: bool) -> axmosdb::DBConfig {
+    let page = if small_pages_ok { *pick(r, &[4096usize, 8192, 16384, 65536]) } else { *pick(r, &[16384usize, 32768, 65536]) };
+    crate::eng::cfg(page, *pick(r, &[32usize, 64, 256, 2000, 10000]), *pick(r, &[1usize, 2, 8]), *pick(r, &[3usize, 4, 8]), *pick(r, &[1usize, 2, 3]))
+}
+
+/// C09: histories split at arbitrary points by flush / close / open with arbitrary configuration values
+fn seg_reopen(run: &mut Runner, r: &mut R, stats: &mut serde_json::Value) {
+    let c0 = rand_cfg(r, false);
+    run.reset(c0);
+    let u1 = r.random_bool(0.5);
+    let mut tabs: Vec<Tab> = vec![rand_table(r, "t1", u1), rand_table(r, "t2", false)];
+    for t in tabs.iter_mut() { run.auto(&Stmt::Create(t.def.clone())); let n = r.random_range(1..7); populate(run, r, t, n); }
+    let mut extra_tables = 0;
+    let n = r.random_range(25..60);
+    for _ in 0..n {
+        if run.hung { return; }
+        let ti = r.random_range(0..2);
+        match r.random_range(0..16) {
+            0 | 1 | 2 => { let s = rand_insert(r, &mut tabs[ti], 0, 1, false); if run.auto(&s).is_ok() { note_insert(&mut tabs[ti], &s); } }
+            3 => { let s = rand_delete(r, &tabs[ti], 0, 1); run.auto(&s); }
+            4 if tabs[ti].updatable => { let s = rand_update(r, &tabs[ti], 0, 1); run.auto(&s); }
+            5 | 6 | 7 | 8 => {
+                // short transactions, most of them rolled back: many aborted transaction ids
+                let tj = if tabs[ti].updatable { 1 - ti } else { ti };
+                if !tabs[tj].updatable && run.begin(1).is_ok() {
+                    let mut ins = vec![];
+                    let st = if r.random_bool(0.7) { let s = rand_insert(r, &mut tabs[tj], 0, 1, false); ins.push(s.clone()); s } else { rand_delete(r, &tabs[tj], 0, 1) };
+                    run.stmt(1, &st);
+                    if r.random_range(0..5) == 0 { run.flush(); }
+                    match r.random_range(0..10) { 0..=6 => { run.rollback(1); } 7 => { run.drop_session(1); } _ => { if run.commit(1).is_ok() { for s in ins { note_insert(&mut tabs[tj], &s); } } } }
+                }
+            }
+            9 => { run.flush(); }
+            10 => { run.vacuum(); }
+            11 if extra_tables < 2 => {
+                // object ids after reopen must not collide: a new table now and then
+                extra_tables += 1;
+                let t = rand_table(r, &format!("x{}", extra_tables), false);
+                run.auto(&Stmt::Create(t.def.clone()));
+                let mut t2 = t.clone();
+                let s = rand_insert(r, &mut t2, 0, 1, false);
+                run.auto(&s);
+                run.auto(&Stmt::Select(select_all(&t2)));
+            }
+            12 | 13 | 14 => {
+                let cfg = rand_cfg(r, true);
+                if r.random_bool(0.5) { run.flush(); }
+                run.reopen(cfg);
+                stats["reopens"] = json!(stats["reopens"].as_u64().unwrap_or(0) + 1);
+                for t in tabs.iter_mut() {
+                    run.auto(&Stmt::Select(select_all(t)));
+                    // fresh row ids: a new row must neither replace nor hide an old one
+                    let s = rand_insert(r, t, 0, 1, false);
+                    if run.auto(&s).is_ok() { note_insert(t, &s); }
+                    run.auto(&Stmt::Select(select_all(t)));
+                }
+            }
+            _ => { let q = rand_select(r, &tabs, true); run.auto(&Stmt::Select(q)); }
+        }
+    }
+    for t in &tabs { run.auto(&Stmt::Select(select_all(t))); }
+}
+
 pub fn main(a: &Args) -> i32 {
     crate::eng::install_panic_hook();
     let seed = a.num("seed", 1);
@@ -771,6 +1016,7 @@ pub fn main(a: &Args) -> i32 {
     let mut r = util::rng(seed, 1);
     let mut done = 0;
     let mut extra = 0usize;
+    let mut stats = json!({});
     for _ in 0..segments {
         match kind.as_str() {
             "sql" => seg_sql(&mut run, &mut r),
@@ -779,12 +1025,17 @@ pub fn main(a: &Args) -> i32 {
             "atom" => seg_atom(&mut run, &mut r),
             "snap" => seg_snap(&mut run, &mut r),
             "uniq" => seg_uniq(&mut run, &mut r),
+            "plan" => seg_plan(&mut run, &mut r, &mut stats),
+            "vac" => seg_vac(&mut run, &mut r, &mut stats),
+            "reopen" => seg_reopen(&mut run, &mut r, &mut stats),
             other => { eprintln!("unknown kind {other}"); return 2; }
         }
         if run.hung { break; }
         done += 1;
     }
     let (events, stmts, errors, panics, hung) = run.finish();
-    println!("{}", json!({"kind": kind, "segments": done, "events": events, "stmts": stmts, "errors": errors, "panics": panics, "hung": hung, "enumerated": extra}));
+    let mut out = json!({"kind": kind, "segments": done, "events": events, "stmts": stmts, "errors": errors, "panics": panics, "hung": hung, "enumerated": extra});
+    if let Some(m) = stats.as_object() { for (k, v) in m { out[k] = v.clone(); } }
+    println!("{}", out);
     0
 }
